@@ -29,6 +29,7 @@ const (
 	SigPBDiscardedKept   = "pathbadger/finalize/discarded-root-still-claimed-present-but-not-intact"
 	SigDiffDiscardedKept = "differential/finalize/pathbadger-still-lists-discarded-root"
 	// Badger-only shape (same-version child roots).
+	SigKeptTreeDangling   = "commit/same-root-committed-twice/kept-tree-persists-dangling-references" // prefixed with the backend
 	SigBadgerIntermediate = "badger/finalize/same-version-ancestor-of-finalized-root-claimed-present-but-not-intact"
 )
 
@@ -262,6 +263,14 @@ func (l *Lab) classifyOpError(res OpResult) (Finding, bool) {
 			}
 		}
 	}
+	if op.Kind == KCommit && res.KeptTree && l.TreeShortcut[op.Tree] && res.Class == "ErrNodeNotFound" {
+		return Finding{
+			Fatal:     true,
+			Signature: l.Backend + "/" + SigKeptTreeDangling,
+			What:      fmt.Sprintf("%s fails with %q: the long-lived tree T%d follows node references that were never written (an earlier commit of that tree produced a root that already existed and the backend dropped the batch)", op.String(), res.ErrText, op.Tree),
+			Detail:    map[string]any{"backend": l.Backend, "after_op": fmt.Sprintf("%d:%s", res.Idx, op.String())},
+		}, true
+	}
 	if (op.Kind == KCommit || op.Kind == KPrune) && res.Class == "ErrNodeNotFound" && res.Expect == "" {
 		// A tree write / commit / prune walk that cannot load a node of a retained finalized root:
 		// the node was lost earlier (latent until something has to load it on its own).
@@ -297,6 +306,24 @@ func (l *Lab) classifyOpError(res OpResult) (Finding, bool) {
 // failure, the hashes of the missing nodes, the node sets of the roots they
 // occur in, who created / re-created them and whether they pre-existed.
 func (l *Lab) classifyBrokenRoot(res OpResult, opName string, ri *RootInfo, rr ReadResult) []Finding {
+	fs := l.classifyBrokenRoot0(res, opName, ri, rr)
+	if ri.ViaTree > 0 && l.TreeShortcut[ri.ViaTree] {
+		// The root was committed through a long-lived tree which, in an earlier commit, had
+		// produced a root that already existed (committed by another tree): the backend dropped
+		// that batch, but the tree kept the node references it had handed out. Used only when
+		// no more specific explanation (D4/D5, ...) was found.
+		for i := range fs {
+			if !strings.HasPrefix(fs[i].Signature, "c06/") {
+				continue
+			}
+			fs[i].Signature = l.Backend + "/" + SigKeptTreeDangling
+			fs[i].What = fmt.Sprintf("%s [the root was committed through the long-lived tree T%d; an earlier commit of that tree produced a root that another tree had already committed in the same version, the backend dropped the batch (root already exists) but the tree went on using node references that were never written, and its next commit persisted them]", fs[i].What, ri.ViaTree)
+		}
+	}
+	return fs
+}
+
+func (l *Lab) classifyBrokenRoot0(res OpResult, opName string, ri *RootInfo, rr ReadResult) []Finding {
 	ri.Broken = true
 	op := res.Op
 	detail := map[string]any{
